@@ -69,6 +69,35 @@ CHECKS = {
              'node is found again by its path, paths round-trip through text, evaluation order equals the model; model errors must be node errors.',
         note='Plain-data values only (no node shared between two places); rename_child on mappings only.',
         design='4/C17'),
+    'C09': dict(
+        technique='property-based testing (Hypothesis) against a reference-graph model: identity (is) of aliases, EvalError for dangling/self/cyclic graphs, deterministic step budget (sys.settrace line counter) for termination',
+        text='Generated reference graphs (chains to length 30, fan-in, forward/backward, into and out of mappings, lists and call arguments, '
+             'dangling, self, pure and containment cycles) over data spread on 1-3 documents; well-formed graphs must alias the very same object, '
+             'ill-formed ones must raise EvalError, and every build must finish within 5,000,000 traced line events.',
+        note='Termination is bounded liveness: a step budget ~40x the largest terminating case; paths through references are not generated.',
+        design='4/C09'),
+    'C10': dict(
+        technique='property-based testing (Hypothesis): history invariant over a recorder log (exactly-once, no run of overwritten nodes), identity of results, key-permutation metamorphic relation',
+        text='Configs with side-effecting !call/!eval producers and xref / call-argument / eval consumers, built in the written and in a permuted '
+             'key order, with 0-2 later stages replacing or deleting producers or their containers; every surviving producer is logged exactly once, '
+             'no other runs, every consumer received the object that is in the final config, both layouts evaluate equal.',
+        note='Survivors are computed from the plain fold, not read from the implementation.',
+        design='4/C10'),
+    'C12': dict(
+        technique='grammar-based differential testing (Hypothesis): generated python programs and f-strings vs CPython exec/eval in the same process, over build histories; crash guard for interpreter death',
+        text='Programs from a grammar covering expressions, def/closures/lambdas, comprehensions, branches, loops, try/finally, with, imports, '
+             'classes, global and >255 names, over four name pools with shadowing; f-strings in all spellings; with/without file name; 1-3 builds '
+             'in one process with different values and a namespace-survival probe. Values (or exception classes through the cause chain) must equal '
+             'native python; a dying interpreter is a violation whose replay is the case being run.',
+        note='No ";" in code (documented quirk); integer-typed programs.',
+        design='4/C12'),
+    'C13': dict(
+        technique='property-based differential testing (Hypothesis): stated binding rule + CPython binding of generated signatures, and a (target,args) state machine for merge histories',
+        text='Targets with generated signatures (positional-only .. **kwargs), argument sets with prefix/gap int keys, string keys, duplicates, '
+             'list/scalar/value-less forms and dynamic values; 0-4 merge steps (mapping, list, string, other/same function node, with and without '
+             '{{delete: False}}); !call results / !bind partials must equal what the rule + native call give, errors must be EvalError with the native cause.',
+        note='Gap indices on keyword-only parameters, same-name strings and call<->bind changes are outside the statement and not generated.',
+        design='4/C13'),
     'C15': dict(
         technique='property-based metamorphic testing (Hypothesis): five relations (determinism, idempotence, empty-neutral, key permutation, flag-neutral) per generated sequence',
         text='Each generated sequence over priority/!del/!merge tags is rebuilt twice, with the last document repeated, with {} inserted at every '
